@@ -81,6 +81,35 @@ def k2_step(prop, tier, seed, work, env, sh):
     notes.append("deep-nesting probe: depth 100000 %s; depth 3000000 %s" % ("ok" if cases[0]["pred"] else "FAILED", "ok" if ok else ("fatal stack overflow" if died else "failed")))
     return {"cases": cases, "notes": notes}
 
+def race_step(prop, tier, seed, work, env, sh):
+    """C15, runtime part: the same generator under the Go race detector (a separate -race build of the harness)."""
+    import os, json
+    hdir = os.path.join(os.path.dirname(os.path.dirname(os.path.abspath(__file__))), "harness")
+    binp = os.path.join(work, "harness-race")
+    rc, out = sh(["go", "build", "-race", "-tags", "verif", "-o", binp, "."], cwd=hdir, env=env)
+    if rc != 0:
+        return {"cases": [], "notes": ["race build failed: " + out[-300:]]}
+    n = 120 if tier == "quick" else 3000
+    outp = os.path.join(work, "race_cases.jsonl")
+    rc, out = sh(["timeout", "1500", binp, prop, "--seed", str(seed + 7), "--n", str(n), "--out", outp], cwd=work, env=dict(env, GORACE="halt_on_error=0"))
+    cases = []
+    if os.path.exists(outp):
+        for l in open(outp):
+            try:
+                c = json.loads(l)
+            except Exception:
+                continue
+            c["coq"] = ""            # the model is run on the non-race stream; here only the predicates and the detector count
+            c["tags"] = (c.get("tags") or []) + ["race-detector-run"]
+            cases.append(c)
+    racy = "DATA RACE" in out
+    if racy or rc != 0:
+        i = out.find("WARNING: DATA RACE")
+        cases.append({"coq": "", "desc": {"race_detector": out[i:i + 2500] if i >= 0 else out[-1500:]}, "pred": False,
+                      "pred_msg": "the Go race detector reports a data race inside the library during ForEachAsync/MapAsync or concurrent read-only calls" if racy else "the -race run failed (exit %d)" % rc,
+                      "nontrivial": True, "key": "race-report", "tags": ["race-detector-report"]})
+    return {"cases": cases, "notes": ["race-detector run: %d cases, data race reported: %s" % (len(cases), racy)]}
+
 PROPS = {
     "C18": {
         "mismatch_is_input": True,
@@ -182,6 +211,7 @@ PROPS = {
         "multi-line documents (newlines in every whitespace slot, nested containers, 0-3 lines of text before the root, text after it) with one injected error: invalid literal, "
         "wrong character instead of ':', unquoted key; class, cited line and cited character/token compared with the model", per_shard=100),
     "C12": {
+        "generated": True,
         "mismatch_is_input": True,
         "n": {"quick": 4000, "thorough": 200000},
         "per_shard": 300,
@@ -206,6 +236,36 @@ PROPS = {
         "rule": "container trees of depth <= 5 (all kinds, NaN/Inf included); NativeSlice/NativeDict export and Slice()/Dict() snapshot are compared with the model; the harness "
                 "additionally mutates the export, the snapshot, the source Go value and the container and checks that the other side never changes; non-trivial = at least 4 nodes",
         "trusted": ["non-aliasing of exported/imported Go maps and slices with the container's storage rests on Go's type system (different element types) plus the dynamic mutation predicate"],
+        "assumptions": [],
+    },
+    "C15": {
+        "generated": True,
+        "n": {"quick": 400, "thorough": 20000},
+        "per_shard": 40,
+        "run_header": "From Anytype Require Import Base FloatBits Value RunCommon Derived Async RunMisc.\nLocal Open Scope Z_scope.\n",
+        "run_check": "c15_check",
+        "run_show": "(fun c => let '(k, n, _, _, _) := c in c15_model k n)",
+        "extra_steps": [race_step],
+        "rule": "ForEachAsync / MapAsync of lists and objects with sizes {0,1,2,7,64}, GOMAXPROCS {1,2,4,16}, five callback delay patterns (none, index-dependent sleeps both ways, "
+                "Gosched, alternating) so that start/finish orders vary; observed: multiset of (index,value) calls, completion of every callback at return, MapAsync = Map; every fifth case: "
+                "2-8 goroutines running 12 read-only operations on one shared container against their sequential results; the same generator is run again under the Go race detector; "
+                "the model side executes the skeleton EXTRACTED from the source under a round-robin schedule; non-trivial = n >= 2",
+        "trusted": ["the go/ast extractor of the four synchronisation skeletons (harness/astx.go) and the small-step semantics of WaitGroup/Mutex/go statements (Async.v)",
+                    "runtime truth not modelled: the Go scheduler and memory model realise the modelled atomic steps; exercised by the race detector and perturbed schedules only"],
+        "assumptions": ["callbacks do not mutate the container being iterated"],
+    },
+    "C19": {
+        "generated": True,
+        "mismatch_is_input": True,
+        "n": {"quick": 400, "thorough": 20000},
+        "per_shard": 200,
+        "run_header": "From Anytype Require Import Base FloatBits Value RunCommon Derived Async RunMisc.\nLocal Open Scope Z_scope.\n",
+        "run_check": "c19_check",
+        "run_show": "(fun c => let '(o, name, _) := c in c19_model o name)",
+        "rule": "every method of the List and Object interfaces whose result type is the interface itself, enumerated by reflection, called with valid arguments synthesised from its signature "
+                "on derived values of one and two embedding levels (the two-level ones registered twice: inner constructor, then outer); observed: whether the registered outer value came back; "
+                "plus 14 retrieval paths of a stored derived value; the model side is the return-expression table EXTRACTED from the source",
+        "trusted": ["the go/ast extractor of return-expression classes (harness/astx.go); reflection-based argument synthesis"],
         "assumptions": [],
     },
 }
